@@ -908,6 +908,17 @@ def must_be_copy_of(body, local, roots, _seen=None):
         if d["k"] in ("use", "cast") and d["a"][0] in ("cp", "mv") and all(e == "*" for e in d["a"][1][1:]):
             if not must_be_copy_of(body, d["a"][1][0], roots, _seen):
                 return False
+        elif d["k"] == "use" and d["a"][0] in ("cp", "mv") and len(d["a"][1]) == 2 and d["a"][1][1].startswith(".") and d["a"][1][1][1:].isdigit():
+            # component i of a tuple: every construction of that tuple must put a copy of the roots there
+            # (`let (a, pid, c) = if full { (.., pid, ..) } else { (.., pid, ..) }`)
+            T_, i_ = d["a"][1][0], int(d["a"][1][1][1:])
+            tdefs = [st["rv"] for b in body.blocks if not b["cleanup"] for st in b["stmts"] if st["d"] == [T_]]
+            if not tdefs or any(b["term"]["k"] == "call" and b["term"].get("d") == [T_] for b in body.blocks if not b["cleanup"]):
+                return False
+            for tv in tdefs:
+                if not (tv["k"] == "agg" and tv.get("ak") == "tuple" and len(tv["ops"]) > i_ and tv["ops"][i_][0] in ("cp", "mv")
+                        and all(e == "*" for e in tv["ops"][i_][1][1:]) and must_be_copy_of(body, tv["ops"][i_][1][0], roots, _seen)):
+                    return False
         elif d["k"] == "ref" and all(e == "*" for e in d["p"][1:]):
             if not must_be_copy_of(body, d["p"][0], roots, _seen):
                 return False
